@@ -97,6 +97,8 @@ def gen_case(rng, nops=6, max_classes=5, focus=None):
     topo = F.topo_order(fam)
     twin_src = F.render(fam, topo, [False] * n)
     mode = rng.choice(["eager", "lazy", "lazy", "postponed", "postponed", "mixed"])
+    if focus == "apc" and rng.random() < 0.6:
+        mode = rng.choice(["postponed", "mixed"])
     order = topo if mode in ("eager", "lazy") else F.random_order(fam, rng)
     lazy = [mode == "lazy" or (mode == "mixed" and rng.random() < 0.5) for _ in range(n)]
     src = F.render(fam, order, lazy)
@@ -175,10 +177,23 @@ def run_history(case, upto=None, collect=None):
         # the twin (other definition order / eager) could be created, this family cannot: the class statements
         # themselves depend on order / mode
         got = F.canon_exc(e)
+        pred = F.predict_creation(fam, case["order"], case["lazy"]) if fam.get("classes") and "order" in case else None
+        m = re.search(r"Class (\w+) has unresolved type reference", got[2] if len(got) > 2 else "")
+        if pred is not None and got[1] == "UnresolvedTypeReferenceError" and m and m.group(1) == fam["classes"][pred]["name"]:
+            # Config.allow_postponed_evaluation = False on a class whose references are unresolved at its class statement:
+            # failing there is what was configured (not a dependence on timing); compared with the Coq model (ccase)
+            case["creation"] = {"failed": pred, "pos": case["order"].index(pred)}
+            return [(0, "<class creation>", got, ["EXC", "UnresolvedTypeReferenceError", "by-configuration"], None)]
         gaux = {"rec": F.recursion_kind(e)} if got[1] == "RecursionError" else {}
         sig = classify(fam, "<class creation>", got, ["OK", "created"], gaux, {}, {}, {}, case["src"])
         return [(0, "<class creation>", got, ["OK", "created"], sig)]
     res = []
+    pred = F.predict_creation(fam, case["order"], case["lazy"]) if fam.get("classes") and "order" in case else None
+    if pred is not None:
+        F.unload(mod)
+        exp = ["EXC", "UnresolvedTypeReferenceError", f"Class {fam['classes'][pred]['name']} has unresolved type reference"]
+        return [(0, "<class creation>", ["OK", "created"], exp,
+                 {"kind": "history-dependence", "got": "OK", "exp": "UnresolvedTypeReferenceError"})]
     try:
         if collect is not None:
             collect.append(F.snapshot(mod, fam))
@@ -226,6 +241,8 @@ def oracle_histories(ctx: vlib.Ctx, n: int, keep_cases=None, focus=None):
             for o in ("onf", "baf", "ctx"):
                 if c.get(o):
                     feats.add("flag:" + o)
+            if not c.get("apc", True):
+                feats.add("Config.allow_postponed_evaluation=False")
             if c.get("cdial"):
                 feats.add("Config.dialect")
             for _, t in c["fields"]:
@@ -262,7 +279,9 @@ def oracle_histories(ctx: vlib.Ctx, n: int, keep_cases=None, focus=None):
             ctx.hist("outcome", exp[0] if exp[0] == "OK" else "EXC:" + exp[1])
             ctx.count((case["mode"], tuple(sorted(feats)), m.group(0) if m else op[:10], "dialect=" in op, k == 0))
             if sig is not None:
-                ctx.fail(f"{case['mode']} family: op #{k} `{op[:120]}` gives {short(got, 160)} but a fresh eager twin gives {short(exp, 160)}",
+                ref = ("the configured behaviour (Config.allow_postponed_evaluation = False, unresolved reference at the class statement) is"
+                       if op == "<class creation>" and got[0] == "OK" else "a fresh eager twin gives")
+                ctx.fail(f"{case['mode']} family: op #{k} `{op[:120]}` gives {short(got, 160)} but {ref} {short(exp, 160)}",
                          {"entry": "history", "mode": case["mode"], "order": case["order"], "lazy": case["lazy"],
                           "family": fam, "source": case["src"], "twin_source": case["twin_src"],
                           "ops": case["ops"][:k + 1], "failing_op": k, "observed": got, "expected": exp},
@@ -567,6 +586,10 @@ def run(ctx: vlib.Ctx):
         phase("scenarios", oracle_scenarios, ctx)
         phase("discriminated", oracle_discriminated, ctx, ctx.budget(75, 600))
         phase("threads", oracle_threads, ctx, ctx.budget(16, 150), ctx.budget(6, 12))
+        # Config.allow_postponed_evaluation = False (last, so that the streams above are unchanged)
+        apc_cases = []
+        phase("histories-apc", oracle_histories, ctx, ctx.budget(40, 400), keep_cases=apc_cases, focus="apc")
+        phase("correspondence", c14_coq.correspondence, ctx, apc_cases, tag="apc")
     finally:
         sys.setrecursionlimit(old)
     ctx.trusted += [
